@@ -3,6 +3,7 @@ import warnings
 from typing import Any
 from typing import Dict
 from typing import List
+from typing import Optional
 
 from ..logs import ExecutionLog
 from ..market import Market
@@ -38,6 +39,8 @@ class TradingHaltRule(EventABC):
         self.is_enabled: bool = True
         self.halting_time_length: int = 1
         self.halting_time_started: int = 0
+        self.halting_market: Optional[Market] = None
+        self.halting_session: Optional[Session] = None
         self.activation_count: int = 0
         self.target_markets: Dict[str, Market] = {}
         self.trigger_change_rate: float = 0.0
@@ -119,6 +122,8 @@ class TradingHaltRule(EventABC):
                         if simulator.current_session is None:
                             raise AssertionError
                         simulator.current_session.with_order_execution = False
+                        self.halting_market = m
+                        self.halting_session = simulator.current_session
 
     def hooked_before_step_for_market(
         self, simulator: Simulator, market: Market
@@ -130,8 +135,15 @@ class TradingHaltRule(EventABC):
                 if m == market:
                     if simulator.current_session is None:
                         raise AssertionError
-                    simulator.current_session.with_order_execution = True
-                    m._is_running = True
+                    if m != self.halting_market:
+                        # no halt started by this rule is in force on this market
+                        continue
+                    if simulator.current_session == self.halting_session:
+                        simulator.current_session.with_order_execution = True
+                        m._is_running = True
+                    # otherwise the halting session is over and the halt ended with it
+                    self.halting_market = None
+                    self.halting_session = None
                     self.halting_time_started = 0
 
 
